@@ -15,26 +15,43 @@ abbrev Str := List Char
 
 /-! ## Characters, escaping (`_escape`, `_escape_char`, `P_ESCAPE_TEXT`, `P_ESCAPE_COMMENTS`) -/
 
+/-! The character classes are stated on code points (`Nat`) so that the generated tables
+(`Capella/Gen/Exs.lean`) can be compared with them cheaply by the kernel. -/
+
 /-- `ESCAPE_CHARS` without the extra characters: `[\x00-\x1F\x7F]` -/
-def isCtl (c : Char) : Bool := c.toNat ≤ 0x1F || c.toNat == 0x7F
+def isCtlN (n : Nat) : Bool := n ≤ 0x1F || n == 0x7F
+/-- `P_ESCAPE_TEXT = [\x00-\x1F\x7F"&<]` -/
+def isEscTextN (n : Nat) : Bool := isCtlN n || n == 34 || n == 38 || n == 60
+/-- `P_ESCAPE_COMMENTS = [\x00-\x1F\x7F>]` -/
+def isEscCommentsN (n : Nat) : Bool := isCtlN n || n == 62
+
+def isCtl (c : Char) : Bool := isCtlN c.toNat
 
 /-- `P_ESCAPE_TEXT = [\x00-\x1F\x7F"&<]` — used for attribute values, element text and tails -/
-def isEscText (c : Char) : Bool := isCtl c || c == '"' || c == '&' || c == '<'
+def isEscText (c : Char) : Bool := isEscTextN c.toNat
 
 /-- `P_ESCAPE_COMMENTS = [\x00-\x1F\x7F>]` — defined in `exs.py` but **not used** by it -/
-def isEscComments (c : Char) : Bool := isCtl c || c == '>'
+def isEscComments (c : Char) : Bool := isEscCommentsN c.toNat
 
 /-- `re.compile(r">")` — the pattern `_serialize_comment` really passes -/
 def isEscGt (c : Char) : Bool := c == '>'
 
+/-- single characters selected by the default pattern of `_serialize_text` (element text, tails) -/
+def contentClsN (n : Nat) : Bool := isEscTextN n
+def contentCls (c : Char) : Bool := contentClsN c.toNat
+
+/-- does that default pattern also select the `>` of `]]>`?  (It does not: it *is* `P_ESCAPE_TEXT`.) -/
+def contentEscapesCdataEnd : Bool := false
+
 /-- `html.entities.codepoint2name` restricted to the printable ASCII range `" "`‥`"~"`
 (the only range `_escape_char` consults it for); `none` = `KeyError`. -/
-def entityName (c : Char) : Option Str :=
-  if c = '"' then some "quot".toList
-  else if c = '&' then some "amp".toList
-  else if c = '<' then some "lt".toList
-  else if c = '>' then some "gt".toList
+def entityNameN (n : Nat) : Option Str :=
+  if n = 34 then some "quot".toList
+  else if n = 38 then some "amp".toList
+  else if n = 60 then some "lt".toList
+  else if n = 62 then some "gt".toList
   else none
+def entityName (c : Char) : Option Str := entityNameN c.toNat
 
 def hexDigitU (n : Nat) : Char :=
   if n < 10 then Char.ofNat (48 + n) else Char.ofNat (55 + n)
@@ -71,11 +88,11 @@ def escapeRaises (cls : Char → Bool) (s : Str) : Bool :=
 /-- `str.isspace()` for one code point (CPython 3.12 / Unicode 15: `Zs`, `Zl`, `Zp` and the
 bidirectional classes `WS`, `B`, `S`); the table is re-read from the interpreter on every run
 (`Capella/Gen/Exs.lean`). -/
-def isPySpace (c : Char) : Bool :=
-  let n := c.toNat
-  (9 ≤ n && n ≤ 13) || (28 ≤ n && n ≤ 32) || n == 0x85 || n == 0xA0 || n == 0x1680 ||
-  (0x2000 ≤ n && n ≤ 0x200A) || n == 0x2028 || n == 0x2029 || n == 0x202F || n == 0x205F ||
-  n == 0x3000
+def pySpaceCps : List Nat :=
+  [9, 10, 11, 12, 13, 28, 29, 30, 31, 32, 133, 160, 5760, 8192, 8193, 8194, 8195, 8196, 8197, 8198,
+   8199, 8200, 8201, 8202, 8232, 8233, 8239, 8287, 12288]
+def isPySpaceN (n : Nat) : Bool := pySpaceCps.contains n
+def isPySpace (c : Char) : Bool := isPySpaceN c.toNat
 
 /-- `bool((text or "").strip())` -/
 def pyNonBlank : Option Str → Bool
